@@ -115,7 +115,10 @@ def check_c07(r, ex, stats):
             break
     if r.kind == "step":
         if r.outcome == "raised" and not r.exc_injected:
-            bad("T0", "direct step raised %s" % _unexpected_exception(r))
+            if r.model_failed:
+                stats["discard-singular"] += 1
+            else:
+                bad("T0", "direct step raised %s" % _unexpected_exception(r))
         return out
 
     # ---- T8: the caller's initial field is never modified (any outcome) -------
